@@ -391,23 +391,31 @@ class C12(Check):
         ports = [{"no": i, "hw": self.hw(i).hex(), "config": PC_NO_STP, "state": 0} for i in self.portnos(case)]
         return {"var": dict(self.variant), "ports": ports, "bufs": case.get("bufs", 4096), "ops": self._flat(case)[0]}
 
+    @staticmethod
+    def _by_channel(outs):
+        """one op's log in canonical order: per output port the frames in their own order, then what went to the controller in its own
+        order (the order in which one FLOOD / ALL expansion visits DIFFERENT ports is not constrained by the property)"""
+        if outs is None: return None
+        return sorted(outs, key=lambda o: (0, o["port"]) if o.get("k") == "frame" else (1, 0))
+
     def model_obs(self, case, resp):
         if "error" in resp: return resp
         flat, sizes = self._flat(case)
         outs, spec, i = [], [], 0
         for op, n in zip(case["ops"], sizes):
             if i + n > len(resp["outs"]): break                      # the model stopped inside / before this op
-            outs.append([o for part in resp["outs"][i:i + n] for o in part])
-            spec.append(resp["spec"][i] if op["op"] != "batch" else None)
+            outs.append(self._by_channel([o for part in resp["outs"][i:i + n] for o in part]))
+            spec.append(self._by_channel(resp["spec"][i]) if op["op"] != "batch" else None)
             i += n
         r = {"outs": outs, "exc": resp["exc"], "ports": resp["ports"] if resp["exc"] is None else None}
         if case.get("wf"): r["spec"] = spec
         return r
 
     def impl_view(self, case, obs):
-        r = {"outs": obs["outs"], "exc": obs["exc"], "ports": obs["ports"] if obs["exc"] is None else None}
+        outs = [self._by_channel(o) for o in obs["outs"]]
+        r = {"outs": outs, "exc": obs["exc"], "ports": obs["ports"] if obs["exc"] is None else None}
         if case.get("wf"):
-            r["spec"] = [o if op["op"] in ("pktout", "rx") else None for op, o in zip(case["ops"], obs["outs"])]
+            r["spec"] = [o if op["op"] in ("pktout", "rx") else None for op, o in zip(case["ops"], outs)]
         return r
 
     # ------------------------------------------------------------------ the property on the implementation's observables
@@ -550,6 +558,11 @@ class C12(Check):
                     if o["k"] == "frame":
                         t = st["etx"].setdefault(o["port"], [0, 0]); t[0] += 1; t[1] += len(o["data"]) // 2
             if not judged: continue
+            # The property speaks of "the frames the switch emits ON EACH PORT" (and of what it sends to the controller): the order in which
+            # one FLOOD / ALL expansion visits different ports is not constrained.  Both logs are therefore put into a canonical order
+            # before they are compared: the per-port sequences and the controller-bound sequence each keep their own order (stable sort).
+            chan = lambda o: (0, o["port"]) if o["k"] == "frame" else (1, 0)
+            got = sorted(got, key=chan); exp = sorted(exp, key=chan)
             if sorted(cfg) != sorted(real_after) and op["op"] in ("portmod", "batch", "link"):
                 return "op %d: port_mod/link sequence leaves ports (no, config, state) %s, expected %s" % (i, sorted(real_after), sorted(cfg))
             where, frame, ingress = infos[-1] if infos else (op["op"], b"", None)
